@@ -349,7 +349,25 @@ func statusIn(code int, set []int) bool {
 // ---------------------------------------------------------------------------
 // the harness
 
+// verifConfigs: besides the main configuration (the universe, spellings and
+// root form the parameters select) a check can explore side configurations
+// on the small universe: parameter "configs" = 1 + how many of these.
+//
+//	1: member name "..b"    2: served directory given with a trailing separator
+//	3: member name "b c%41#?"
+var verifConfig int
+
+func verifPickConfig() {
+	verifConfig = 0
+	if n := vrt.Param("configs", 1); n > 1 {
+		verifConfig = vrt.Choose("config", n)
+	}
+}
+
 func verifUniverse() []string {
+	if verifConfig != 0 {
+		return verifUniverseQuick
+	}
 	switch vrt.Param("universe", 0) {
 	case 1:
 		return verifUniverseThorough
@@ -360,17 +378,25 @@ func verifUniverse() []string {
 }
 
 // verifSpellings: what the member name "b" of the universe is spelled like
-// (parameter "spellings" = how many of them are explored): a plain name, a
+// (parameter "spellings" = how many of them are explored): a plain name that
+// extends its sibling's, a
 // name that begins with two dots (legal, and not a dot-dot segment), a name
 // with a blank and the characters that need escaping in URLs.
-var verifSpellings = []string{"b", "..b", "b c%41#?"}
+var verifSpellings = []string{"ab", "..b", "b c%41#?"}
 
 func verifSpell(paths []string) []string {
 	n := vrt.Param("spellings", 1)
-	if n <= 1 {
-		return paths
+	// the plain spelling is "ab": a sibling of "a" whose name (and path)
+	// has the sibling's as a string prefix
+	name := verifSpellings[0]
+	switch {
+	case verifConfig == 1:
+		name = verifSpellings[1]
+	case verifConfig == 3:
+		name = verifSpellings[2]
+	case verifConfig == 0 && n > 1:
+		name = verifSpellings[vrt.Choose("name-spelling", n)]
 	}
-	name := verifSpellings[vrt.Choose("name-spelling", n)]
 	out := make([]string, len(paths))
 	for i, p := range paths {
 		segs := strings.Split(p, "/")
@@ -414,6 +440,7 @@ type verifRun struct {
 // runStep: one request against an arbitrary valid tree.
 func runStep(faults bool, conditional bool) *verifRun {
 	internal.VerifResetWire()
+	verifPickConfig()
 	t := symTree(verifUniverse())
 	t.paths = verifSpell(t.paths)
 	req := symRequest(t, faults)
@@ -439,6 +466,10 @@ func runStep(faults bool, conditional bool) *verifRun {
 		}
 	}
 	fs := LocalFileSystem(run.root)
+	if verifConfig == 2 || (verifConfig == 0 && vrt.Param("rootforms", 1) > 1 && vrt.Choose("root-trailing-separator", 2) == 1) {
+		// the served directory configured with a trailing separator
+		fs = LocalFileSystem(run.root + "/")
+	}
 	if conditional {
 		symConditional(run, fs)
 	}
